@@ -496,10 +496,13 @@ int sim_main_run(const Plan &plan, int life, bool last_life, long gap_s) {
   char dirbuf[256];
   snprintf(dirbuf, sizeof dirbuf, "%s/nsim-%08d", scratch_base().c_str(), g_root_pid ? g_root_pid : (int)getpid());
   S.root = dirbuf;
-  std::string lib = S.root + "/lib";
+  // the mudlib sits four levels below the private scratch root: a path that escapes it by a few ".." (a symbolic link
+  // leading out, C15) still lands inside this run's own directory and is removed with it
+  std::string lib = S.root + "/o1/o2/o3/lib";
   if (life == 0) {
     rm_tree(S.root);
     mkdir(S.root.c_str(), 0755);
+    mkdir((S.root + "/o1").c_str(), 0755); mkdir((S.root + "/o1/o2").c_str(), 0755); mkdir((S.root + "/o1/o2/o3").c_str(), 0755);
     copy_tree(g_mudlib_src, lib);
     for (auto &f : plan.files) write_file_raw(lib + "/" + f.first, f.second);
   } else {
@@ -510,7 +513,7 @@ int sim_main_run(const Plan &plan, int life, bool last_life, long gap_s) {
   }
   // the driver only ever sees relative paths, so the scratch location cannot influence a run
   if (chdir(S.root.c_str())) { ev("boot_fail chdir_root"); ev_flush(); return 3; }
-  std::string conf = "MudlibDir lib\nMasterFile /master.c\nSimulEfunFile /simul_efun.c\n";
+  std::string conf = "MudlibDir o1/o2/o3/lib\nMasterFile /master.c\nSimulEfunFile /simul_efun.c\n";
   bool has_port = false;
   for (auto &c : plan.cfg) { conf += c.first + " " + c.second + "\n"; if (c.first == "Port") has_port = true; }
   if (!has_port && !S.console_mode) conf += "Port 4000:telnet\n";
